@@ -1,3 +1,5 @@
+#[cfg(simple_dns_verif)]
+use simrt::shim_std as std;
 use crate::{
     socket_helper::{join_multicast, sender_socket},
     NetworkScope, SimpleMdnsError, UNICAST_RESPONSE,
